@@ -55,6 +55,7 @@ structure Inv (w : World) : Prop where
   regNodup : w.registry.Nodup
   annReg : ∀ sid, (w.sock sid).announced = true → sid ∈ w.registry ∨ closedW w sid
   acc : AccInv w
+  regOpen : ∀ sid ∈ w.registry, (w.sock sid).rs ≠ .opening
 
 def ReqsExt (w w' : World) : Prop :=
   w.reqs.size ≤ w'.reqs.size ∧
@@ -267,7 +268,8 @@ theorem SameView.closedW {w w' : World} (h : SameView w w') (sid : Nat) : closed
 
 theorem SameView.pres {w w' : World} (h : SameView w w') : Pres w w' := by
   intro i
-  refine ⟨⟨?_, ?_, ?_, ?_, ?_, ?_, ?_, i.acc.of_view h.slog h.size h.sock⟩, ⟨?_, ?_, h.reqs, Nat.le_of_eq h.size.symm, ?_, ?_, ?_⟩⟩
+  refine ⟨⟨?_, ?_, ?_, ?_, ?_, ?_, ?_, i.acc.of_view h.slog h.size h.sock,
+    fun sid hm => by rw [(h.sock sid).rs]; exact i.regOpen sid (by rw [← h.registry]; exact hm)⟩, ⟨?_, ?_, h.reqs, Nat.le_of_eq h.size.symm, ?_, ?_, ?_⟩⟩
   · rw [h.slog]; exact i.logOK
   · intro sid hc; rw [h.slog] at hc; exact (h.closedW sid).mpr (i.logClosed sid hc)
   · intro sid hc; rw [h.slog]; exact i.closedLog sid ((h.closedW sid).mp hc)
@@ -353,7 +355,8 @@ theorem pres_sev (w : World) (sid : Nat) (e : SEv) (hnc : e.final = true → ¬ 
   have hcw : ∀ j, closedW (w.sev sid e) j ↔ closedW w j := fun j => by unfold closedW; simp
   have hci : ∀ j, closeIn j (w.slog ++ [(sid, e)]) ↔ closeIn j w.slog := fun j => by
     rw [closeIn_append, closeIn_single]; simp [he]
-  refine ⟨⟨?_, ?_, ?_, ?_, ?_, ?_, ?_, i.acc.sev_neutral sid e hn⟩, ⟨?_, ?_, ?_, ?_, ?_, ?_, ?_⟩⟩
+  refine ⟨⟨?_, ?_, ?_, ?_, ?_, ?_, ?_, i.acc.sev_neutral sid e hn,
+    fun j hm => by rw [sock_sev]; exact i.regOpen j (by simpa using hm)⟩, ⟨?_, ?_, ?_, ?_, ?_, ?_, ?_⟩⟩
   · rw [slog_sev]
     exact logOK_snoc _ _ i.logOK (fun hf hc => hnc hf (i.logClosed sid hc))
   · intro j hc; rw [slog_sev, hci] at hc; exact (hcw j).mpr (i.logClosed j hc)
@@ -409,7 +412,19 @@ theorem pres_setSock (w : World) (sid : Nat) (f : Sock → Sock)
     rcases hs j with h | ⟨hj, hz, h⟩
     · rw [h]; exact i.acc.ses j
     · rw [h, hj]; exact hacc hz (i.acc.ses sid)
-  refine ⟨⟨i.logOK, ?_, ?_, ?_, ?_, i.regNodup, ?_, hacc'⟩, ⟨?_, ⟨[], by simp⟩, ReqsExt.refl _, by simp, ?_, ?_, fun j hm => Or.inl hm⟩⟩
+  have hro : ∀ j ∈ (w.setSock sid f).registry, ((w.setSock sid f).sock j).rs ≠ .opening := by
+    intro j hm
+    have hm' : j ∈ w.registry := by simpa using hm
+    have ho := i.regOpen j hm'
+    rcases hs j with h | ⟨hj, hz, h⟩
+    · rw [h]; exact ho
+    · rw [h]
+      intro hop
+      rw [hj] at ho
+      have := hrank
+      rw [hop] at this
+      cases hr : (w.sock sid).rs <;> simp [hr, RS.rank] at this ho
+  refine ⟨⟨i.logOK, ?_, ?_, ?_, ?_, i.regNodup, ?_, hacc', hro⟩, ⟨?_, ⟨[], by simp⟩, ReqsExt.refl _, by simp, ?_, ?_, fun j hm => Or.inl hm⟩⟩
   · intro j hc; exact (hcw j).mpr (i.logClosed j hc)
   · intro j hc; exact i.closedLog j ((hcw j).mp hc)
   · intro j
@@ -488,7 +503,12 @@ theorem pres_pushSock (w : World) (s0 : Sock) (hrs : s0.rs = .opening) (hann : s
     · have := i.acc.fresh e he hn
       show e.1 < (w.socks.push s0).size
       simp; omega
-  refine ⟨⟨i.logOK, ?_, ?_, ?_, ?_, i.regNodup, ?_, hacc'⟩, ⟨?_, ⟨[], by simp⟩, ReqsExt.refl _, by simp, ?_, ?_, fun j hm => Or.inl hm⟩⟩
+  have hro : ∀ j ∈ w.registry, (({ w with socks := w.socks.push s0 } : World).sock j).rs ≠ .opening := by
+    intro j hm
+    rcases hs j with h | ⟨hj, _, _⟩
+    · rw [h]; exact i.regOpen j hm
+    · have := (i.regLive j hm).2.1; omega
+  refine ⟨⟨i.logOK, ?_, ?_, ?_, ?_, i.regNodup, ?_, hacc', hro⟩, ⟨?_, ⟨[], by simp⟩, ReqsExt.refl _, by simp, ?_, ?_, fun j hm => Or.inl hm⟩⟩
   · intro j hc; exact (hcw j).mpr (i.logClosed j hc)
   · intro j hc; exact i.closedLog j ((hcw j).mp hc)
   · intro j
@@ -527,7 +547,7 @@ theorem pres_pushSock (w : World) (s0 : Sock) (hrs : s0.rs = .opening) (hann : s
 
 /-- the last steps of a handshake: the registry entry, then the announcement -/
 theorem pres_register (w : World) (sid : Nat) (hsz : sid < w.socks.size) (hnew : sid ∉ w.registry)
-    (hnc : ¬ closedW w sid) :
+    (hnc : ¬ closedW w sid) (hno : (w.sock sid).rs ≠ .opening) :
     Pres w (({ w with registry := w.registry ++ [sid] } : World).setSock sid fun s => { s with announced := true }) := by
   intro i
   generalize hw' : (({ w with registry := w.registry ++ [sid] } : World).setSock sid fun s => { s with announced := true }) = w'
@@ -558,7 +578,15 @@ theorem pres_register (w : World) (sid : Nat) (hsz : sid < w.socks.size) (hnew :
     have h1 := s.wbuf; have h2 := s.packetsFn; have h3 := s.sentCb; have h4 := s.upgraded
     simp only at h1 h2 h3 h4
     exact (i.acc.ses j).congr (by rw [hrs]) h1 h2 h3 h4
-  refine ⟨⟨by rw [hlog]; exact i.logOK, ?_, ?_, ?_, ?_, ?_, ?_, hacc'⟩, ⟨?_, ⟨[], by simp [hlog]⟩, ?_, Nat.le_of_eq hsize.symm, ?_, ?_, ?_⟩⟩
+  have hro : ∀ j ∈ w'.registry, (w'.sock j).rs ≠ .opening := by
+    intro j hm
+    rw [hreg] at hm
+    rw [hrs]
+    rcases List.mem_append.mp hm with h | h
+    · exact i.regOpen j h
+    · have hj : j = sid := by simpa using h
+      rw [hj]; exact hno
+  refine ⟨⟨by rw [hlog]; exact i.logOK, ?_, ?_, ?_, ?_, ?_, ?_, hacc', hro⟩, ⟨?_, ⟨[], by simp [hlog]⟩, ?_, Nat.le_of_eq hsize.symm, ?_, ?_, ?_⟩⟩
   · intro j hc; rw [hlog] at hc; exact (hcw j).mpr (i.logClosed j hc)
   · intro j hc; rw [hlog]; exact i.closedLog j ((hcw j).mp hc)
   · intro j
